@@ -422,6 +422,8 @@ func advCallsSetup(s *rt.Sim, tier string) func() {
 				rt.Violate(fmt.Sprintf("C15/late-call-hangs/%s/%s", call.name, resp.behaviour), "%s: the same call made after the connection had ended and Close had returned did not return within 2 simulated hours", desc)
 				return
 			}
+			// helper goroutines of the late call may be stalled by the scheduler (F12, at most MaxStall)
+			sleep(10 * time.Minute)
 		}
 		if live := libTasksAlive(); len(live) > 0 {
 			site := live[0].Name
